@@ -160,6 +160,10 @@ func genControl(rng *mrand.Rand, n int, tier string, w *bufio.Writer) {
 						fmt.Fprintf(w, "req method=%s host=%s path=%s uri=%s tls=%s cookies=L\n", hexB([]byte("GET")), hexB([]byte(h)),
 							hexB([]byte(u.Path)), hexB([]byte(uri)), b2s(tlsOn))
 					}
+					if chance(rng, 35) {
+						fmt.Fprintf(w, "req method=%s host=%s path=%s uri=%s tls=0 cookies=L xfp=1\n", hexB([]byte("GET")), hexB([]byte(h)),
+							hexB([]byte(u.Path)), hexB([]byte(uri)))
+					}
 					// the same request carrying an allowlisted rollout cookie, and one just outside the list
 					if len(gs.allow) > 0 {
 						for _, v := range []string{pick(rng, gs.allow), pick(rng, gs.allow) + "x"} {
@@ -225,6 +229,11 @@ func genControl(rng *mrand.Rand, n int, tier string, w *bufio.Writer) {
 					method := "GET"
 					if chance(rng, 15) {
 						method = "POST"
+					}
+					if chance(rng, 20) {
+						// a plain or TLS request that claims to have been HTTPS one hop earlier: the header is forwarded or
+						// replaced, but never takes part in routing, redirect or TLS-policy decisions
+						abs += " xfp=1"
 					}
 					fmt.Fprintf(w, "req method=%s host=%s path=%s uri=%s tls=%s cookies=%s%s\n", hexB([]byte(method)), hexB([]byte(host)),
 						hexB([]byte(upath)), hexB([]byte(uri)), b2s(chance(rng, 30)), encList(cookies), abs)
@@ -628,6 +637,9 @@ func (r *ctlRun) request(kv map[string]string) string {
 	}
 	if kv["tls"] == "1" {
 		req.TLS = &tls.ConnectionState{}
+	}
+	if kv["xfp"] == "1" {
+		req.Header.Set("X-Forwarded-Proto", "https")
 	}
 	handler := (&Server{config: &Config{}, router: r.router}).buildHandler()
 	rec := httptest.NewRecorder()
